@@ -1,4 +1,5 @@
 import TD.C16.Model
+import TD.C16.Spec
 import Mathlib.Tactic.Ring
 import Mathlib.Tactic.Linarith
 
@@ -421,5 +422,214 @@ theorem rleLargestLe_spec (items : List Item) (q : Int) (hs : (rleValues items).
       · have h1 := hH j hj (by omega)
         have h2 := hC _ (List.getElem_mem hj) x hxj
         omega
+
+/-! ### LIS `RLEType01` -/
+
+/-- the `(position, frames)` pairs one `RLEItemType01` stands for. -/
+def Item01.recs (it : Item01) : List (Int × Int) := it.base.values.map (fun p => (p, it.numFrames))
+
+def recs01 (items : List Item01) : List (Int × Int) := items.flatMap Item01.recs
+
+/-- invariant of an `RLEItemType01`: its X-axis RLE holds one value per record of the run. -/
+def Item01.wf (it : Item01) : Prop := (rleValues it.xaxis).length = it.base.rep + 1
+
+theorem Item.add_rep {it it' : Item} {v : Int} (h : it.add v = some it') : it'.rep = it.rep + 1 := by
+  have := congrArg List.length (Item.values_add h)
+  rw [List.length_append, Item.values_length, Item.values_length] at this
+  simpa using this
+
+theorem Item01.new_recs (p n x : Int) : (Item01.new p n x).recs = [(p, n)] := by
+  simp [Item01.new, Item01.recs, Item.new, Item.values, valuesLoop]
+
+theorem Item01.new_wf (p n x : Int) : (Item01.new p n x).wf := by
+  simp [Item01.new, Item01.wf, rleAdd, rleValues, Item.new, Item.values, valuesLoop]
+
+theorem Item01.add_recs {it it' : Item01} {p n x : Int} (h : it.add p n x = some it') :
+    it'.recs = it.recs ++ [(p, n)] ∧ (it.wf → it'.wf) := by
+  unfold Item01.add at h
+  split at h
+  · cases h
+  · rename_i hn
+    split at h
+    · cases h
+    · rename_i b hb
+      cases h
+      have hn' : n = it.numFrames := by simpa using hn
+      refine ⟨?_, ?_⟩
+      · simp [Item01.recs, Item.values_add hb, hn']
+      · intro hw
+        simp only [Item01.wf] at hw ⊢
+        rw [rleValues_add, List.length_append, hw, Item.add_rep hb]; rfl
+
+theorem recs01_add (items : List Item01) (p n x : Int) :
+    recs01 (add01 items p n x) = recs01 items ++ [(p, n)] ∧
+    ((∀ it ∈ items, it.wf) → ∀ it ∈ add01 items p n x, it.wf) := by
+  fun_induction add01 items p n x with
+  | case1 p n x =>
+    refine ⟨by simp [recs01, Item01.new_recs], ?_⟩
+    intro _ it hit
+    rw [List.mem_singleton.1 hit]; exact Item01.new_wf p n x
+  | case2 lastItem p n x it' h =>
+    obtain ⟨h1, h2⟩ := Item01.add_recs h
+    refine ⟨by simp [recs01, h1], ?_⟩
+    intro hw it hit
+    rw [List.mem_singleton.1 hit]; exact h2 (hw lastItem (by simp))
+  | case3 lastItem p n x h =>
+    refine ⟨by simp [recs01, Item01.new_recs], ?_⟩
+    intro hw it hit
+    rcases List.mem_cons.1 hit with rfl | hit
+    · exact hw _ (by simp)
+    · rw [List.mem_singleton.1 hit]; exact Item01.new_wf p n x
+  | case4 it rest p n x hne ih =>
+    obtain ⟨h1, h2⟩ := ih
+    refine ⟨?_, ?_⟩
+    · simp only [recs01, List.flatMap_cons] at h1 ⊢
+      rw [h1, List.append_assoc]
+    · intro hw i hi
+      rcases List.mem_cons.1 hi with rfl | hi
+      · exact hw _ (by simp)
+      · exact h2 (fun j hj => hw j (List.mem_cons_of_mem _ hj)) i hi
+
+theorem recs01_foldl (recs : List (Int × Int × Int)) : ∀ items : List Item01,
+    recs01 (recs.foldl (fun items r => add01 items r.1 r.2.1 r.2.2) items) = recs01 items ++ recs.map (fun r => (r.1, r.2.1)) ∧
+    ((∀ it ∈ items, it.wf) → ∀ it ∈ recs.foldl (fun items r => add01 items r.1 r.2.1 r.2.2) items, it.wf) := by
+  induction recs with
+  | nil => intro items; simp
+  | cons r rs ih =>
+    intro items
+    obtain ⟨h1, h2⟩ := ih (add01 items r.1 r.2.1 r.2.2)
+    obtain ⟨a1, a2⟩ := recs01_add items r.1 r.2.1 r.2.2
+    refine ⟨?_, fun hw => h2 (a2 hw)⟩
+    rw [List.foldl_cons, h1, a1]; simp
+
+/-- frames below the run's total: the record `f / nf` of the run, offset `f % nf`. -/
+theorem Item01.tell_lt (it : Item01) (f : Int) (hw : it.wf) (hn : 1 ≤ it.numFrames) (h0 : 0 ≤ f)
+    (hlt : f < it.totalFrames) :
+    ∃ x, it.tell f = .ok (f % it.numFrames, some (it.base.datum + it.base.stride * (f / it.numFrames), it.numFrames, x)) := by
+  unfold Item01.totalFrames at hlt
+  have hj0 : 0 ≤ f / it.numFrames := Int.ediv_nonneg h0 (by omega)
+  have hj1 : f / it.numFrames < (it.base.rep : Int) + 1 := Int.ediv_lt_of_lt_mul (by omega) (by rw [Int.mul_comm]; exact hlt)
+  obtain ⟨j, hj⟩ : ∃ j : Nat, f / it.numFrames = (j : Int) := ⟨(f / it.numFrames).toNat, by omega⟩
+  have hjr : j ≤ it.base.rep := by omega
+  have hx : ∃ x, (rleValues it.xaxis)[j]? = some x := by
+    have : j < (rleValues it.xaxis).length := by rw [hw]; omega
+    exact ⟨_, List.getElem?_eq_getElem this⟩
+  obtain ⟨x, hx⟩ := hx
+  refine ⟨x, ?_⟩
+  unfold Item01.tell
+  have e1 : ¬ ¬ (f ≥ 0) := by omega
+  have e2 : f ≤ it.totalFrames := by unfold Item01.totalFrames; omega
+  have e3 : ¬ (it.numFrames = 0) := by omega
+  simp only [e1, if_false, e2, if_true, e3]
+  rw [Int.fdiv_eq_ediv_of_nonneg _ (by omega), Int.fmod_eq_emod_of_nonneg _ (by omega), hj]
+  unfold Item01.value
+  rw [Item.value_nat_le _ j hjr]
+  simp only
+  rw [rleValue_nat, getExc, hx]
+
+/-- frames at or beyond the run's total are passed on, reduced by the total (also through the `<=` branch). -/
+theorem Item01.tell_ge (it : Item01) (f : Int) (hn : 1 ≤ it.numFrames) (hge : it.totalFrames ≤ f) :
+    it.tell f = .ok (f - it.totalFrames, none) := by
+  have hT : 0 ≤ it.totalFrames := by
+    unfold Item01.totalFrames; exact Int.mul_nonneg (by omega) (by omega)
+  unfold Item01.tell
+  have e1 : ¬ ¬ (f ≥ 0) := by omega
+  simp only [e1, if_false]
+  by_cases heq : f = it.totalFrames
+  · have e2 : f ≤ it.totalFrames := by omega
+    have e3 : ¬ (it.numFrames = 0) := by omega
+    simp only [e2, if_true, e3, if_false]
+    rw [Int.fdiv_eq_ediv_of_nonneg _ (by omega), Int.fmod_eq_emod_of_nonneg _ (by omega)]
+    have hd : f / it.numFrames = ((it.base.rep + 1 : Nat) : Int) := by
+      rw [heq]; unfold Item01.totalFrames
+      rw [Int.mul_ediv_cancel_left _ e3]; push_cast; rfl
+    have hm : f % it.numFrames = 0 := by
+      rw [heq]; unfold Item01.totalFrames; exact Int.mul_emod_right _ _
+    rw [hd, hm]
+    unfold Item01.value
+    rw [Item.value_nat_gt _ _ (by omega)]
+    simp only
+    congr 2; omega
+  · have e2 : ¬ (f ≤ it.totalFrames) := by omega
+    simp only [e2, if_false]
+
+/-- `locate` across the records of one regular run. -/
+theorem locate_run (d s nf : Int) (hnf : 1 ≤ nf) (rest : List (Int × Int)) :
+    ∀ (n start : Nat) (f : Int), 0 ≤ f →
+      locate (((List.range' start n).map (fun k : Nat => (d + s * (k : Int), nf))) ++ rest) f =
+        if f < nf * (n : Int) then .ok (d + s * ((start : Int) + f / nf), f % nf) else locate rest (f - nf * (n : Int)) := by
+  intro n
+  induction n with
+  | zero =>
+    intro start f h0
+    have : ¬ (f < nf * ((0 : Nat) : Int)) := by simp; omega
+    simp only [List.range'_zero, List.map_nil, List.nil_append, this, if_false]
+    simp
+  | succ n ih =>
+    intro start f h0
+    rw [List.range'_succ, List.map_cons, List.cons_append, locate]
+    have hexp : nf * ((n + 1 : Nat) : Int) = nf * (n : Int) + nf := by push_cast; ring
+    have hnn : 0 ≤ nf * (n : Int) := Int.mul_nonneg (by omega) (by omega)
+    by_cases hlt : f < nf
+    · have h1 : f < nf * ((n + 1 : Nat) : Int) := by omega
+      simp only [hlt, if_true, h1]
+      rw [Int.ediv_eq_zero_of_lt h0 hlt, Int.emod_eq_of_lt h0 hlt]; simp
+    · simp only [hlt, if_false]
+      rw [ih (start + 1) (f - nf) (by omega)]
+      have hf : f = (f - nf) + nf * 1 := by omega
+      have hdiv : f / nf = (f - nf) / nf + 1 := by
+        conv => lhs; rw [hf]
+        exact Int.add_mul_ediv_left _ _ (by omega)
+      have hmod : f % nf = (f - nf) % nf := by
+        conv => lhs; rw [hf]
+        exact Int.add_mul_emod_self_left _ _ _
+      by_cases h2 : f - nf < nf * (n : Int)
+      · have h3 : f < nf * ((n + 1 : Nat) : Int) := by omega
+        simp only [h2, if_true, h3]
+        rw [hdiv, hmod]; congr 3; push_cast; ring
+      · have h3 : ¬ (f < nf * ((n + 1 : Nat) : Int)) := by omega
+        simp only [h2, if_false, h3]
+        congr 1; omega
+
+theorem Item01.recs_eq (it : Item01) :
+    it.recs = (List.range' 0 (it.base.rep + 1)).map (fun k : Nat => (it.base.datum + it.base.stride * (k : Int), it.numFrames)) := by
+  rw [Item01.recs, Item.values_eq, List.map_map, List.range_eq_range']; rfl
+
+/-- the frame walk over the runs equals the walk over the plain record list. -/
+theorem tellLoop_eq_locate (items : List Item01) : ∀ f : Int, 0 ≤ f →
+    (∀ it ∈ items, it.wf) → (∀ it ∈ items, 1 ≤ it.numFrames) →
+    tellLoop items f = locate (recs01 items) f := by
+  induction items with
+  | nil => intro f _ _ _; simp [tellLoop, recs01, locate]
+  | cons it rest ih =>
+    intro f h0 hw hn
+    have hwi := hw it (by simp)
+    have hni := hn it (by simp)
+    have hT : it.totalFrames = it.numFrames * ((it.base.rep + 1 : Nat) : Int) := by
+      unfold Item01.totalFrames; push_cast; rfl
+    rw [tellLoop]
+    simp only [recs01, List.flatMap_cons]
+    rw [Item01.recs_eq, locate_run _ _ _ hni _ _ _ _ h0, ← hT]
+    by_cases hlt : f < it.totalFrames
+    · obtain ⟨x, hx⟩ := Item01.tell_lt it f hwi hni h0 hlt
+      rw [hx]; simp [hlt]
+    · rw [Item01.tell_ge it f hni (by omega)]
+      simp only [hlt, if_false]
+      exact ih _ (by omega) (fun j hj => hw j (List.mem_cons_of_mem _ hj)) (fun j hj => hn j (List.mem_cons_of_mem _ hj))
+
+theorem Item01.totalFrames_eq (it : Item01) : it.totalFrames = (it.recs.map (·.2)).sum := by
+  have : ∀ l : List Int, ((l.map (fun p => (p, it.numFrames))).map (·.2)).sum = it.numFrames * (l.length : Int) := by
+    intro l
+    induction l with
+    | nil => simp
+    | cons a l ih => simp only [List.map_cons, List.sum_cons, ih, List.length_cons]; push_cast; ring
+  rw [Item01.recs, this, Item.values_length]; unfold Item01.totalFrames; push_cast; rfl
+
+theorem totalFrames01_eq (items : List Item01) : totalFrames01 items = ((recs01 items).map (·.2)).sum := by
+  induction items with
+  | nil => rfl
+  | cons it rest ih =>
+    simp only [totalFrames01, List.map_cons, List.sum_cons, recs01, List.flatMap_cons, List.map_append, List.sum_append] at ih ⊢
+    rw [ih, Item01.totalFrames_eq]
 
 end TD.C16
